@@ -116,9 +116,17 @@ TableCase ==
        /\ (Emit => PrintT(<<"QVJSON", ToJson(st')>>))
   /\ UNCHANGED <<psi, dims, ref>>
 
+\* the enumerated states themselves, for the driver to realise as real networks (S->C)
+EmitState ==
+  /\ Emit /\ st.ph = "init"
+  /\ PrintT(<<"QVJSON", ToJson([ph |-> "state", dims |-> dims, psi |-> psi, den |-> Den(psi)])>>)
+  /\ UNCHANGED vars
+
 Next == ViaRhoTensordot \/ ViaTraceGRho \/ ViaRhoG10 \/ ViaGRho10 \/ ViaGateOverlap \/ ViaLoopExpansion
         \/ RdmRoute \/ OperatorRoute \/ TableCase
 Spec == Init /\ [][Next]_vars
+\* only the psi-independent table and the list of states (what MC_cases.cfg runs, one worker)
+SpecCases == Init /\ [][TableCase \/ EmitState]_vars
 
 (* ---------------- invariants -------------------------------------------- *)
 \* the implementation-shaped value is the dense answer: numerator and denominator.  The reference is
